@@ -657,11 +657,15 @@ func c01CommitBeforeCommitment(c *Ctx) {
 		}, 1) {
 			commits = append(commits, ds.outer())
 		}
-		allInstrsOne(f, func(in ssa.Instruction) {
-			if st, ok := in.(*ssa.Store); ok && strings.HasSuffix(term(st.Addr), ".StorageRoot") && strings.Contains(termF(st.Val), "Commit()") {
-				stores = append(stores, in)
+		for _, di := range p.deepInstrs(f, 1) {
+			if st, ok := di.In.(*ssa.Store); ok && strings.HasSuffix(term(st.Addr), ".StorageRoot") && strings.Contains(termF(st.Val), "Commit()") {
+				if len(di.Chain) > 0 {
+					stores = append(stores, di.Chain[0].Instr) // in a helper (`commitStorageTrie(tr)`): judged at its call
+				} else {
+					stores = append(stores, di.In)
+				}
 			}
-		})
+		}
 		k := 0
 		bad := ""
 		for _, ret := range returnsOf(f) {
